@@ -6,7 +6,7 @@ LEVEL = "exploration"
 TECHNIQUE = "reference-model monitor (R7) over the recorded uninterrupted instruction path: after every debugger API call the hooked instruction pointer, variable digest and hidden-state digest must equal the path's; exhaustive short histories + long random ones, under ASan+UBSan"
 FLAVOURS = [("asan", "generated")]
 RULE = ("ALL histories of length L (quick 5, thorough 6; all shorter ones are their prefixes) over {execute, executeSingle, stepping on, clear, "
-        "reset, enable loc A, disable loc A, enable loc B} on 3 small programs (loop+call, line with several sites, callee with STOP), plus "
+        "reset, enable loc A, disable loc A, enable loc B} on 4 small programs (7 in the thorough tier) (loop+call, line with several sites, callee with STOP), plus "
         "random histories of 20-200 calls (incl. stepping off, unavailable locations, inspection) on generated programs incl. non-terminating "
         "ones; after EVERY call: instruction pointer = P[k], digest of all activations' variables and digest of data words + activation geometry "
         "= those recorded at index k of the uninterrupted run, BREAK opcodes exactly at the sites of enabled lines; "
@@ -37,7 +37,7 @@ def work(spec):
 
 
 def finish(merged, tier, seed):
-    return {"exhaustive": True, "exhaustive_scope": "all API histories of length %d over an 8-call alphabet on 3 small programs" % (5 if tier == "quick" else 6)}
+    return {"exhaustive": True, "exhaustive_scope": "all API histories of length %d over an 8-call alphabet on 4 small programs (7 in the thorough tier)" % (5 if tier == "quick" else 6)}
 
 
 def replay(case):
